@@ -272,6 +272,7 @@ class Interp:
         self.prog = program
         self.cfgmod = seams.sdk("config")
         self.ctxmod = seams.sdk("context")
+        self.last_raw = {}
         self.cbs = {}  # label -> (Callback created by a cbdefer statement in THIS invocation, its position)
         self.exc = seams.sdk("exceptions")
         self.retries = seams.sdk("retries")
@@ -361,6 +362,8 @@ class Interp:
             raise
         c = canon(v)
         w.rec("call-ret", pos=pos, op=op, v=c)
+        t = _sim.current_thread()
+        self.last_raw[t.idx if t else -1] = v  # for bodies that return what their last durable call returned (ret: ["last"])
         _scribble(v)
         return c
 
@@ -591,7 +594,7 @@ class Interp:
             if st.get("setlog"):
                 child_ctx.set_logger(CapLogger(self.w))  # a user-supplied logger installed on the child context
             obs = self.run_seq(child_ctx, st["body"], pos + "/c", item)
-            v = mkvalue(st["ret"]) if "ret" in st else obs
+            v = self._ret_value(st.get("ret"), obs)
             self.w.rec("body-exit", pos=pos, bkind="child", v=canon(v))
             return v
 
@@ -608,10 +611,19 @@ class Interp:
             return ctx.run_in_child_context(body, name=pos, config=self.cfgmod.ChildConfig(serdes=fs))
         return ctx.run_in_child_context(body, name=pos)
 
+    def _ret_value(self, ret, obs):
+        if ret is None:
+            return obs
+        if ret == ["last"]:  # the raw value of the body's last durable call, e.g. the BatchResult of a nested map/parallel
+            t = _sim.current_thread()
+            return self.last_raw.get(t.idx if t else -1)
+        return mkvalue(ret)
+
     def _batch_serdes(self, kw, c, pos):
         for key in ("serdes", "item_serdes"):
             if c.get(key):
-                kw[key] = _flaky_serdes(self.serdes, self.w, f"{pos}#{key}", {"tag": c[key]})
+                spec = c[key] if isinstance(c[key], dict) else {"tag": c[key]}
+                kw[key] = _flaky_serdes(self.serdes, self.w, f"{pos}#{key}", spec)
 
     def _fserdes(self, st, pos):
         spec = st.get("fserdes")
@@ -637,7 +649,7 @@ class Interp:
                 child_ctx.set_logger(CapLogger(w))
             try:
                 obs = self.run_seq(child_ctx, body, bpos, item)
-                v = mkvalue(ret) if ret is not None else obs
+                v = self._ret_value(ret, obs)
             except BaseException as e:  # noqa: BLE001
                 w.rec("body-exit", pos=bpos, bkind="branch", parent=pos, index=b, outcome="raise",
                       cls=type(e).__name__, msg=str(e))
